@@ -259,7 +259,7 @@ package appencryption
 //@   ensures [C09:only-new-secrets-become-cache-owned] forall s securememory.Secret :: cacheowned(s) && !old(cacheowned(s)) ==> fresh(s)
 //@   ensures [C02:ms-only-grows] msGrows(old(ms), ms)
 //@   ensures [C02:error-returns-nil] (err == nil) == (result != nil)
-//@   ensures [C02,C14:backed] err == nil ==> result.secret != nil && valid(result.secret) && fresh(result.secret) && ms[meta.ID][result.created]
+//@   ensures [C02,C14,C01:backed] err == nil ==> result.secret != nil && valid(result.secret) && fresh(result.secret) && ms[meta.ID][result.created]
 //@   ensures [C02:key-carries-requested-stamp] err == nil ==> result.created == meta.Created
 
 //@ func (*envelopeEncryption).loadSystemKey
@@ -272,7 +272,7 @@ package appencryption
 //@   ensures [C09:nothing-released] forall s securememory.Secret :: old(live(s)) ==> live(s)
 //@   ensures [C02:ms-only-grows] msGrows(old(ms), ms)
 //@   ensures [C02:error-returns-nil] (err == nil) == (result != nil)
-//@   ensures [C02,C14:backed] err == nil ==> result.secret != nil && valid(result.secret) && fresh(result.secret) && ms[meta.ID][result.created]
+//@   ensures [C02,C14,C01:backed] err == nil ==> result.secret != nil && valid(result.secret) && fresh(result.secret) && ms[meta.ID][result.created]
 //@   ensures [C02:key-carries-requested-stamp] err == nil ==> result.created == meta.Created
 
 //@ func decryptRow
@@ -328,7 +328,7 @@ package appencryption
 //@   ensures [C09:nothing-released] forall s securememory.Secret :: old(live(s)) ==> live(s)
 //@   ensures [C02:ms-only-grows] msGrows(old(ms), ms)
 //@   ensures [C02:error-returns-nil] (err == nil) == (result != nil)
-//@   ensures [C02,C14:backed] err == nil ==> result.secret != nil && valid(result.secret) && fresh(result.secret) && (id == sysid(e.partition) ==> ms[id][result.created])
+//@   ensures [C02,C14,C01:backed] err == nil ==> result.secret != nil && valid(result.secret) && fresh(result.secret) && (id == sysid(e.partition) ==> ms[id][result.created])
 
 //@ func (*envelopeEncryption).createIntermediateKey$1
 //@   facet C02, C14, C04
@@ -350,7 +350,7 @@ package appencryption
 //@   ensures [C09:only-new-secrets-become-cache-owned] forall s securememory.Secret :: cacheowned(s) && !old(cacheowned(s)) ==> fresh(s)
 //@   ensures [C02:ms-only-grows] msGrows(old(ms), ms)
 //@   ensures [C02:error-returns-nil] (err == nil) == (result != nil)
-//@   ensures [C02,C14:backed] err == nil ==> result.secret != nil && valid(result.secret) && fresh(result.secret) && ms[ikidOf(e.partition)][result.created]
+//@   ensures [C02,C14,C01:backed] err == nil ==> result.secret != nil && valid(result.secret) && fresh(result.secret) && ms[ikidOf(e.partition)][result.created]
 
 //@ func (*envelopeEncryption).loadLatestOrCreateIntermediateKey
 //@   facet C02, C14, C09, C04
@@ -363,7 +363,7 @@ package appencryption
 //@   ensures [C09:only-new-secrets-become-cache-owned] forall s securememory.Secret :: cacheowned(s) && !old(cacheowned(s)) ==> fresh(s)
 //@   ensures [C02:ms-only-grows] msGrows(old(ms), ms)
 //@   ensures [C02:error-returns-nil] (err == nil) == (result != nil)
-//@   ensures [C02,C14:backed] err == nil ==> result.secret != nil && valid(result.secret) && fresh(result.secret) && (id == ikidOf(e.partition) ==> ms[id][result.created])
+//@   ensures [C02,C14,C01:backed] err == nil ==> result.secret != nil && valid(result.secret) && fresh(result.secret) && (id == ikidOf(e.partition) ==> ms[id][result.created])
 
 //@ func (*envelopeEncryption).EncryptPayload$1
 //@   facet C02, C14, C04
@@ -389,7 +389,7 @@ package appencryption
 //@   ensures [C09:drk-secret-released] ret(GenerateKey, 1, 1) == nil ==> !live(ret(GenerateKey, 1, 0).secret)
 //@   ensures [C02:error-returns-nil] (err == nil) == (result != nil)
 //@   ensures [C02,C14:record-well-formed] err == nil ==> result.Key != nil && result.Key.ParentKeyMeta != nil && result.Key.ParentKeyMeta.ID == ikidOf(e.partition)
-//@   ensures [C02,C14:record-names-persisted-ik] err == nil ==> ms[ikidOf(e.partition)][result.Key.ParentKeyMeta.Created]
+//@   ensures [C02,C14,C01:record-names-persisted-ik] err == nil ==> ms[ikidOf(e.partition)][result.Key.ParentKeyMeta.Created]
 
 // ---- key creation stamps (C14: racers inside one precision window collide on one (id, created); C04: never in the future) ----
 
